@@ -186,3 +186,5 @@ def run(ctx):
     from . import C17
     from .common import shared
     shared(ctx, lambda c: C17.stored_fields(c, only={'RangeStatement::<P>::init': ['commitments', 'minimum_value_promises']}), 'R-C17-3', 'R-C07-5')
+    # .. and a copy of a statement carries the source's promises with the source's commitments (Clone::clone / clone_from)
+    shared(ctx, lambda c: C17.copies_are_complete(c, only=('RangeStatement',)), 'R-C17-3', 'R-C07-5')
